@@ -1034,11 +1034,7 @@ pub fn judge_c07(s: &Scenario, r: &RunResult) -> Judged {
             if spawns > 0 && compile_errors.is_empty() {
                 vio.push(v("generation-for-erroneous-program", format!("template '{}' is ill-formed, yet {spawns} generator(s) were started", meta.template)));
             }
-            for c in &meta.expected_codes {
-                if !compile_errors.is_empty() && !errors.iter().any(|d| &d.code == c) {
-                    vio.push(v("expected-error-code-missing", format!("template '{}' should be diagnosed with {c}; got {:?}", meta.template, errors.iter().map(|d| &d.code).collect::<Vec<_>>())));
-                }
-            }
+            // (Which codes are reported for an ill-formed program is C04's business; C07 only needs "at least one error".)
         }
         "io-error" => {
             for u in &meta.unreadable {
